@@ -72,6 +72,13 @@ CHECKS = {
         note=TRUST + "; 'identical overlap matrix' follows from equality of the basis functions in order + determinism, the integral code itself is C06; flattening lemma stated, not mechanised",
         technique="contract-based deductive verification (AST symbolic execution -> z3 VCs, generic-iteration loop rule, induction lemmas) + bounded random bases/orbitals on the real functions",
     ),
+    "C04": dict(
+        category="other",
+        text="The real readers and writers are executed with the unit constants of their modules as indeterminates (a constant is scaled; the exponent with which it enters each loaded / written number is read off exactly, for every element): per (format, attribute) the monomial must equal a unit table written from the format documentation, writer-then-reader must have total exponent 0, every unit-constant use site must lie on an executed path, the ten constants of iodata.utils must equal CODATA values, and absolute probes cover quantities for which the module has no constant (masses in GAMESS / Q-Chem / QCSchema, Q-Chem multipoles, CHGCAR density vs. cell volume). This decides the factor for all numeric values on the executed corpus / crafted paths, not for all files: hence `other`. Four obligations are refuted by open known findings (masses and multipoles stored as printed).",
+        design_ref="DESIGN.md 6/C04",
+        note="trusted: linearity of the conversions in the unit constants (checked: uniform integer exponent), the CODATA values and the unit table typed into checks/c04.py; coverage is per executed path",
+        technique="symbolic run of the real readers/writers with unit constants as indeterminates against a unit table (contracts on factors), exhaustive check of constants, absolute probes",
+    ),
     "C07": dict(
         category="proof",
         text="The format-level readers and the IOData constructor are havoc'ed (any result, any subclass of Exception, for every possible file content at once) and the real load_one / load_many / warning re-issuer / LineIterator / error classes are executed symbolically: only FileFormatError (before the file is opened) or LoadError escapes, the message names the file and the iterator's line number, the file is closed on every exit path incl. generator close, LineIterator keeps lineno == lines taken - pushed back. Termination: one `decreases` obligation per parser loop over the ghost measure lines-left + push-back depth, discharged by path enumeration; nine loops carry a declared, unproved argument (listed in the evidence). Corpus truncation/mutation is a bounded cross-check only.",
